@@ -511,7 +511,9 @@ def corpus_attrs(package="attrs", byte_order=None):
         types.append(ap(Type("Arr%d" % k, "char", length=3 + k, char_encoding=[None, "ASCII", None, "UTF-8"][k]), k))
         e = ap(Enum("E%d" % k, ["uint8", "char", "uint16", "int8"][k], []), k)
         for j in range(4):
-            e.values.append(ap(EnumValue("v%d" % j, chr(65 + j) if e.encoding == "char" else str(j)), (j + k) % 4))
+            # E0: decimal values written with leading zeros (010 is ten, 08 eight)
+            e.values.append(ap(EnumValue("v%d" % j, chr(65 + j) if e.encoding == "char" else (["000", "08", "010", "011"][j] if k == 0 else str(j))),
+                               (j + k) % 4))
         types.append(e)
         enames.append(e.name)
         s = ap(SetT("S%d" % k, UNSIGNED[k], []), k)
